@@ -88,36 +88,50 @@ Inductive landing_answer :=
 | LandIn (start_ms dur_ms : Z) (a b : Q) (deg : nat)  (* inside a segment: root box in segment units *)
 | LandAtMsFallback (ms : Z).                          (* 'touches' found nothing: start of that segment *)
 
-(** the walk that consumes whole segments of the run (binary32 arithmetic of the code) *)
-Fixpoint landing_walk (run : list (cursor * segment)) (altitude to_descend : Q) (fallback : Z) : landing_answer :=
-  match run with
-  | [] => LandAtMs fallback      (* every segment consumed: landing_time_sec keeps its earlier value *)
-  | (c, s) :: rest =>
-    let delta := fsub altitude (last_q (sg_z s)) in
-    if Qltb delta 0 then LandAtMs fallback
-    else if Qle_bool delta to_descend then landing_walk rest (last_q (sg_z s)) (fsub to_descend delta) fallback
-    else
-      match first_root root_depth (shift_poly (zpoly s) (fsub altitude to_descend)) 0 1 with
-      | Maybe a b => LandIn (c_start_ms c) (sg_dur s) a b (length (sg_z s) - 1)
-      | NoRoot => LandAtMsFallback (c_start_ms c)
-      end
-  end.
+(** the walk that consumes whole segments of the run; [sub]/[add] are the
+    subtraction and addition used: binary32 ([fsub]/[fadd]) for the code, exact
+    for the specification *)
+Section Landing.
+  Variable sub add : Q -> Q -> Q.
+  (** altitude at the end of a segment as the code obtains it: sb_poly_eval(&poly.z, 1) *)
+  Variable end_alt_of : segment -> Q.
 
-(** landing part of sb_trajectory_stats_calculator_run; [end_alt] of the run
-    is the altitude polynomial of its last segment evaluated at 1 *)
-Definition landing_of (segs : list (cursor * segment)) (descent thr : Q) : landing_answer :=
-  let '(run, fallback) := landing_scan segs thr None 0 in
-  match run with
-  | None => LandAtMs fallback
-  | Some [] => LandAtMs fallback
-  | Some (((c0, s0) :: _) as r) =>
-    let start_alt := first_q (sg_z s0) in
-    let end_alt := last_q (sg_z (snd (last r (c0, s0)))) in
-    let to_descend := fsub start_alt (fadd end_alt descent) in
-    if Qltb 0 to_descend
-    then landing_walk r start_alt to_descend fallback
-    else LandAtMs (c_start_ms c0)
-  end.
+  Fixpoint landing_walk (run : list (cursor * segment)) (altitude to_descend : Q) (fallback : Z) : landing_answer :=
+    match run with
+    | [] => LandAtMs fallback      (* every segment consumed: landing_time_sec keeps its earlier value *)
+    | (c, s) :: rest =>
+      let delta := sub altitude (last_q (sg_z s)) in
+      if Qltb delta 0 then LandAtMs fallback
+      else if Qle_bool delta to_descend then landing_walk rest (last_q (sg_z s)) (sub to_descend delta) fallback
+      else
+        match first_root root_depth (shift_poly (zpoly s) (sub altitude to_descend)) 0 1 with
+        | Maybe a b => LandIn (c_start_ms c) (sg_dur s) a b (length (sg_z s) - 1)
+        | NoRoot => LandAtMsFallback (c_start_ms c)
+        end
+    end.
+
+  (** landing part of sb_trajectory_stats_calculator_run *)
+  Definition landing_of (segs : list (cursor * segment)) (descent thr : Q) : landing_answer :=
+    let '(run, fallback) := landing_scan segs thr None 0 in
+    match run with
+    | None => LandAtMs fallback
+    | Some [] => LandAtMs fallback
+    | Some (((c0, s0) :: _) as r) =>
+      let start_alt := first_q (sg_z s0) in
+      let end_alt := end_alt_of (snd (last r (c0, s0))) in
+      let to_descend := sub start_alt (add end_alt descent) in
+      if Qltb 0 to_descend
+      then landing_walk r start_alt to_descend fallback
+      else LandAtMs (c_start_ms c0)
+    end.
+End Landing.
+
+(** binary32 evaluation of the altitude polynomial at 1 (coefficients and Horner steps rounded) *)
+Definition end_alt_f32 (s : segment) : Q := horner F32Ops (make_bezier F32Ops 1%Q (sg_z s)) 1%Q.
+Definition end_alt_exact (s : segment) : Q := last_q (sg_z s).
+
+Definition qsub (a b : Q) : Q := Qred (a - b).
+Definition qadd (a b : Q) : Q := Qred (a + b).
 
 (** sb_trajectory_propose_landing_time_sec *)
 Definition propose_landing (tr : traj) (descent thr : fnum) : res landing_answer :=
@@ -126,6 +140,19 @@ Definition propose_landing (tr : traj) (descent thr : fnum) : res landing_answer
   match descent, thr with
   | FVal d, FVal th =>
     if Qle_bool d FLT_MIN then Ok (LandAtMs total)
-    else Ok (landing_of segs d (if Qltb th 0 then 0%Q else th))
+    else Ok (landing_of fsub fadd end_alt_f32 segs d (if Qltb th 0 then 0%Q else th))
+  | _, _ => Ok (LandAtMs total)
+  end.
+
+(** The same with exact arithmetic: what the property describes (the code's
+    binary32 subtraction absorbs a preferred descent below the resolution of
+    the run's altitude: see Properties_C14 [landing_tiny_descent_refuted]). *)
+Definition propose_landing_spec (tr : traj) (descent thr : fnum) : res landing_answer :=
+  segs <- segments tr ;;
+  total <- total_duration_msec tr ;;
+  match descent, thr with
+  | FVal d, FVal th =>
+    if Qle_bool d 0 then Ok (LandAtMs total)
+    else Ok (landing_of qsub qadd end_alt_exact segs d (if Qltb th 0 then 0%Q else th))
   | _, _ => Ok (LandAtMs total)
   end.
